@@ -6,7 +6,7 @@ package tmi
 // ---- kState.FindView (C04 classification, C09 totality) ----
 
 //@ func kState.FindView
-//@   property C04 C09
+//@   property C04 C09 C05
 //@   requires s.Voting.Round < MAXU32
 //@   requires s.Voting.Height == s.Committing.Height + 1 || s.Committing.Height == 0
 //@   requires s.Voting.Height >= 1
@@ -381,7 +381,7 @@ package tmi
 //@   loop 1 invariant fresh-map: out.BlockSignatures != nil && fresh(out.BlockSignatures)
 
 //@ func Kernel.handleReplayedHeader
-//@   property C04 C01 C10 C05
+//@   property C04 C01 C10 C05 C07
 //@   option nowrap off
 //@   requires KInv(s) && KBounds(s) && SepInv(s) && VInv(s.Voting) && VInv(s.NextRound) && s.Voting.Round < MAXU32 - 2 && s.NextRound.Version < MAXU32 - 1
 //@   requires k.store != nil && k.hStore != nil && k.rStore != nil && k.hashScheme != nil && k.sigScheme != nil && k.cmspScheme != nil
@@ -398,6 +398,8 @@ package tmi
 //@   ensures inv-kept: result == nil ==> KInv(s)
 //@   modifies memory except Kernel, hmax(0), hhash(s.Voting.Height), msvh(0), msvr(0), msch(0), mscr(0), chanclosed(s.StateMachineViewManager.roundEntrance.HeightCommitted)
 //@   loop[C01,C05] 1 invariant round-matches: r == s.Voting.Round
+//@   loop[C07] 1 invariant replayed-validator-list-is-the-voting-list: valsEq(header.ValidatorSet.Validators, valSet.Validators) &&
+//@       bytes(header.ValidatorSet.PubKeyHash) == bytes(valSet.PubKeyHash) && bytes(header.ValidatorSet.VotePowerHash) == bytes(valSet.VotePowerHash)
 //@   loop 1 invariant temp-proofs-verified: tempProofs != nil && fresh(tempProofs) && (forall x string :: {rawdom(tempProofs)[x]} x in tempProofs ==>
 //@       mapvals(tempProofs)[x] != nil && fresh(ref(mapvals(tempProofs)[x])) && base(mapvals(tempProofs)[x]) <= top() && ProofInv(mapvals(tempProofs)[x]) &&
 //@       pkeys(mapvals(tempProofs)[x]) == valSet.PubKeys && pkhash(mapvals(tempProofs)[x]) == string(valSet.PubKeyHash) &&
